@@ -18,8 +18,11 @@ Every operation is written as the Go code is (in-place writes, `append` within c
 `B6.Model.Tags`), after the `fix:` patches C38-*.  The pre-fix `Clone`/`MergeFrom` bodies are kept in
 `namespace Old` for the counterexample theorems.
 
-Not modelled: tag values, IDs, polygons, collection keys/values are opaque immutable strings (the API
-has no operation that mutates one in place: `Set`/`ModifyOrAddTagAt` build a new `Expressions`);
+A third level: a tag whose VALUE is a list (`b6.Expressions` — a path's points) is a `Cell.ltag` holding
+the header of the list, which lives in the value store `Vals`; copying Tag structs shares the list, as in Go;
+`ModifyOrAddTagAt` / `b6.Set` (`tagsSetAt`, `setList`) allocate a new list, as written.
+Not modelled: other tag values, IDs, polygons, collection keys/values are opaque immutable strings;
+`invertPoints` (reverses a path's points in place, only under `InvertClockwisePaths`);
 the exact amount of spare capacity `append` leaves on re-allocation (`growPad`: doubling; unobservable
 unless two live slices share an array, which is what `Sep` excludes); validation, search index and reference table of the worlds
 (C12/C13/C15); `SetTags`/`SetPathIDs` are given fresh literals (they store the caller's slice as is).
@@ -36,6 +39,10 @@ pointer — `""` is nil —, collection key or value) -/
 inductive Cell where
   | pair (a b : String)
   | scalar (s : String)
+  /-- a tag whose value is a LIST (`b6.Expressions`, e.g. a path's points): the Tag struct holds the header of
+  the list's backing array, which lives in the value store `Vals` — copying the Tag (`Tags.Clone`, `copy`,
+  `append`) copies the header and so SHARES the list, exactly as the Go code does -/
+  | ltag (k : String) (v : Slice)
 deriving DecidableEq, Repr
 
 abbrev Store := List (List Cell)
@@ -72,6 +79,7 @@ def allocCap (st : Store) (cs pad : List Cell) : Store × Slice := (st ++ [cs ++
 
 def zeroLike : Cell → Cell
   | .pair _ _ => .pair "" ""
+  | .ltag _ _ => .pair "" ""
   | .scalar _ => .scalar ""
 
 /-- spare capacity Go's `growslice` leaves when `append` has to re-allocate (small slices: the capacity at
@@ -132,10 +140,7 @@ def cloneKeepNil (st : Store) (s : Option Slice) : Option (Store × Option Slice
 
 def Cell.key : Cell → Option String
   | .pair a _ => some a
-  | .scalar _ => none
-
-def Cell.asPair : Cell → Option (String × String)
-  | .pair a b => some (a, b)
+  | .ltag k _ => some k
   | .scalar _ => none
 
 /-- index of the first tag with the key -/
@@ -152,12 +157,24 @@ def tagsSet (st : Store) (t : Option Slice) (k v : String) : Option (Store × Op
     | some i => (write st t i (.pair k v)).map (·, t)
     | none => append st t [.pair k v]
 
-def allPairs : List Cell → Option (List (String × String))
-  | [] => some []
-  | c :: rest =>
-    match c.asPair, allPairs rest with
-    | some p, some ps => some (p :: ps)
+/-- the tags of a backing array as (key, position) pairs: `RemoveTag` only looks at keys and moves whole
+Tag structs, so the loop of `B6.Model.Tags` is run on these and the structs are put back by position -/
+def keyedIdx : List Cell → Nat → Option (List (String × String))
+  | [], _ => some []
+  | c :: rest, i =>
+    match c.key, keyedIdx rest (i + 1) with
+    | some k, some r => some ((k, toString i) :: r)
     | _, _ => none
+
+def decodeAll (arr : List Cell) : List (String × String) → Option (List Cell)
+  | [] => some []
+  | p :: ps =>
+    match p.2.toNat? with
+    | none => none
+    | some i =>
+      match arr[i]?, decodeAll arr ps with
+      | some c, some r => some (c :: r)
+      | _, _ => none
 
 /-- `Tags.RemoveTag`: the in-place deletion loop of `B6.Model.Tags` run on the backing array -/
 def tagsRemove (st : Store) (t : Option Slice) (k : String) : Option (Store × Option Slice) :=
@@ -167,13 +184,16 @@ def tagsRemove (st : Store) (t : Option Slice) (k : String) : Option (Store × O
     match st[s.addr]? with
     | none => none
     | some arr =>
-      match allPairs arr with
+      match keyedIdx arr 0 with
       | none => none
       | some back =>
         if s.len ≤ back.length then
           match (B6.Model.Tags.GoSlice.mk back s.len).removeTag k with
           | none => none
-          | some g => some (st.set s.addr (g.back.map fun p => Cell.pair p.1 p.2), some ⟨s.addr, g.len⟩)
+          | some g =>
+            match decodeAll arr g.back with
+            | none => none
+            | some cs => some (st.set s.addr cs, some ⟨s.addr, g.len⟩)
         else none
 
 /-- `Tags.RemoveTags`: one `RemoveTag` per key -/
@@ -391,6 +411,7 @@ deriving Repr, DecidableEq
 def scalarOf : Cell → String
   | .scalar s => s
   | .pair a _ => a
+  | .ltag k _ => k
 
 /-- stable sort of (key, value) rows by key -/
 def sortRows (rows : List (Cell × Cell)) : List (Cell × Cell) :=
@@ -458,6 +479,72 @@ def mutate (st : Store) (f : Feat) : Mut → Option (Store × Feat)
         (mergeInto a.1 f.values (rows.map (·.2))).map fun b => (b.1, { f with keys := a.2, values := b.2, sorted := true })
     | _, _ => none
 
+/-! ## list-valued tags (`b6.Expressions` values; `Tags.ModifyOrAddTagAt`, `b6.Set`) -/
+
+/-- the store of the lists that are tag VALUES.  Go's types keep it apart from `Store` (a `[]AnyExpression`
+never aliases a `[]Tag`, `[]FeatureID`, …).  No operation of the feature API writes into an existing array
+of it: `b6.Set` always `make`s a new one. -/
+abbrev Vals := List (List String)
+
+/-- the visible elements of a list value -/
+def resolveV (vals : Vals) (h : Slice) : Option (List String) :=
+  match vals[h.addr]? with
+  | none => none
+  | some arr => if h.len ≤ arr.length then some (arr.take h.len) else none
+
+/-- `b6.Set(s, e, i)` as written: `r := make([]AnyExpression, max(len(es), i+1)); copy(r, es); r[i] = e` -/
+def setList (vals : Vals) (es : List String) (i : Nat) (e : String) : Vals × Slice :=
+  let r := (es ++ List.replicate (i + 1 - es.length) "").set i e
+  (vals ++ [r], ⟨vals.length, r.length⟩)
+
+/-- first tag with the key whose value is a list (`ExpressionType() == ExpressionTypeExpressions`) -/
+def findListKey (k : String) : List Cell → Option (Nat × Slice)
+  | [] => none
+  | .ltag k' h :: rest =>
+    if k' = k then some (0, h) else (findListKey k rest).map fun r => (r.1 + 1, r.2)
+  | _ :: rest => (findListKey k rest).map fun r => (r.1 + 1, r.2)
+
+/-- `Tags.ModifyOrAddTagAt(Tag{k, e}, i)` -/
+def tagsSetAt (st : Store) (vals : Vals) (t : Option Slice) (k : String) (i : Nat) (e : String) :
+    Option (Store × Vals × Option Slice) :=
+  match cells st t with
+  | none => none
+  | some cs =>
+    match findListKey k cs with
+    | some (j, h) =>
+      match resolveV vals h with
+      | none => none
+      | some es =>
+        let r := setList vals es i e
+        (write st t j (.ltag k r.2)).map fun st' => (st', r.1, t)
+    | none =>
+      let r := setList vals [] i e
+      (append st t [.ltag k r.2]).map fun a => (a.1, r.1, a.2)
+
+/-- `ModifyOrAddTag(Tag{k, NewExpressions(lit)})` where the caller built `lit` with `spare` unused capacity
+(as after earlier `append`s) -/
+def tagsSetList (st : Store) (vals : Vals) (t : Option Slice) (k : String) (lit : List String) (spare : Nat) :
+    Option (Store × Vals × Option Slice) :=
+  let h : Slice := ⟨vals.length, lit.length⟩
+  let vals' := vals ++ [lit ++ List.replicate spare ""]
+  match cells st t with
+  | none => none
+  | some cs =>
+    match findKey k cs with
+    | some j => (write st t j (.ltag k h)).map fun st' => (st', vals', t)
+    | none => (append st t [.ltag k h]).map fun a => (a.1, vals', a.2)
+
+/-- the mutators that involve a list value -/
+inductive MutV where
+  | setTagAt (k : String) (i : Nat) (e : String)
+  | setTagList (k : String) (lit : List String) (spare : Nat)
+deriving Repr, DecidableEq
+
+def mutateV (st : Store) (vals : Vals) (f : Feat) : MutV → Option (Store × Vals × Feat)
+  | .setTagAt k i e => (tagsSetAt st vals f.tags k i e).map fun r => (r.1, r.2.1, { f with tags := r.2.2 })
+  | .setTagList k lit spare =>
+    (tagsSetList st vals f.tags k lit spare).map fun r => (r.1, r.2.1, { f with tags := r.2.2 })
+
 /-- what the caller's constructors give: `&GenericFeature{ID: id}`, `NewAreaFeature(n)`,
 `NewRelationFeature(n)`, `&CollectionFeature{CollectionID: id}` -/
 def newFeat (st : Store) (kind : Kind) (id : String) (n : Nat) : Store × Feat :=
@@ -519,6 +606,8 @@ def fromWorld (st : Store) (w : Feat) : Option (Store × Feat) :=
 
 structure State where
   st : Store := []
+  /-- the lists that are tag values (append-only) -/
+  vals : Vals := []
   /-- `FeaturesByID` of the world: at most one entry per (kind, id) -/
   world : List Feat := []
   /-- feature values held by callers -/
@@ -530,6 +619,8 @@ inductive Op where
   /-- `vars.push(vars[i].Clone())` -/
   | clone (i : Nat)
   | upd (i : Nat) (m : Mut)
+  /-- a mutator involving a list-valued tag (`ModifyOrAddTagAt`, …) on `vars[i]` -/
+  | updV (i : Nat) (m : MutV)
   /-- `vars[i].MergeFrom(vars[j])` -/
   | merge (i j : Nat)
   /-- `world.AddFeature(vars[i])` — `ModifiedFeatures.Update`: `MergeFrom` into the existing entry, else store `Clone()` -/
@@ -558,6 +649,11 @@ def step (s : State) : Op → Option State
     match s.vars[i]? with
     | none => none
     | some f => (mutate s.st f m).map fun r => { s with st := r.1, vars := s.vars.set i r.2 }
+  | .updV i m =>
+    match s.vars[i]? with
+    | none => none
+    | some f =>
+      (mutateV s.st s.vals f m).map fun r => { s with st := r.1, vals := r.2.1, vars := s.vars.set i r.2.2 }
   | .merge i j =>
     match s.vars[i]?, s.vars[j]? with
     | some e, some o =>
